@@ -800,6 +800,9 @@ fn main() {
         // leak decision by repetition (audit builds): the same scenario four times
         let repeats = if audited && kind != "immortal" { 4 } else { 1 };
         let mut live_after: Vec<i64> = Vec::new();
+        // the messages of value violations are allocations of the monitor itself: a scenario that produced any
+        // gets no leak verdict (it already fails the check), otherwise the monitor would report its own strings
+        let mut monitor_allocated = false;
         for _ in 0..repeats {
             let mut out = Outcome::new();
             unsafe {
@@ -811,6 +814,7 @@ fn main() {
                 }
             }
             total.ops += out.ops;
+            monitor_allocated |= !out.violations.is_empty();
             for v in out.violations {
                 if total.violations.len() < 50 {
                     total.violations.push(format!("scenario {n} ({kind}, seed {s}): {v}"));
@@ -818,7 +822,7 @@ fn main() {
             }
             live_after.push(audit_snapshot().live);
         }
-        if repeats == 4 && live_after[1] < live_after[2] && live_after[2] < live_after[3] {
+        if repeats == 4 && !monitor_allocated && live_after[1] < live_after[2] && live_after[2] < live_after[3] {
             leaks.push(format!(
                 "scenario {n} ({kind}, seed {s}): the live allocation count keeps growing when the scenario is repeated: {live_after:?}"
             ));
